@@ -51,6 +51,14 @@ pub async fn handle_remote_write(State(state): State<ApiState>, body: Bytes) -> 
     }
 }
 
+/// Verification hook: parse and convert an (already decompressed) remote-write body without
+/// going through the HTTP handler and the ingester.
+#[cfg(feature = "verif-hooks")]
+pub fn verif_parse_remote_write(data: &[u8]) -> crate::Result<RecordBatch> {
+    let request = parse_write_request(data)?;
+    convert_prom_to_arrow(&request)
+}
+
 /// Prometheus write request (simplified representation)
 #[derive(Debug, Clone)]
 pub struct WriteRequest {
